@@ -55,6 +55,29 @@ CHECKS = {
         note="Integer masses / costs (or costs / 7); dual potentials for recorded instances come from an independent HiGHS "
              "solve and are only trusted after TLC accepted them.",
         tech="TLA+ specification of the transportation LP with TLC-enumerated optima + certificate validation of recorded runs"),
+    "C09": dict(
+        cat="model_checking", ref="5 (C09), 4.9",
+        text="BPE.tla: training as a nondeterministic merge machine with the contraction loop transcribed (loop variable "
+             "that may be unassigned, guarded tail); TLC checks in every reachable state of the bounded model that "
+             "encodings decode to the original strings, that replaying the code list reproduces them, that codes are "
+             "well formed and that the loop is safe and equals the declarative contraction. Recorded fits of the real "
+             "vectorizer (code_list_, tokens_, max_char_code_, fit_transform and transform encodings of training and new "
+             "strings, all three return types) are decided by Trace_BPE.tla: lossless, transform = replay, fit_transform = "
+             "transform on the training strings, token = concatenation of its pair, budget respected.",
+        note="Named precondition: some adjacent pair occurs twice (else training raises). The greedy pair choice is not part "
+             "of the property and not constrained. Random corpora over {a,b}, {a,b,c} and unicode strings incl. lengths 0/1.",
+        tech="TLA+ state machine (nondeterministic merges) model-checked + trace validation of recorded fits"),
+    "C16": dict(
+        cat="model_checking", ref="5 (C16), 4.8",
+        text="LZ.tla is the parse state machine of lempel_ziv_based_encode (start, end, dictionary with insertion order, "
+             "size cap, base dictionary) plus first-seen column assignment; the hash value of every phrase is LOGGED from "
+             "the fitted hash function and handed to TLC, so collisions are modelled. For each recorded fit TLC "
+             "recomputes columns, fit_transform rows, transform rows of training and new strings and checks RowTotal, "
+             "WithinBudget, OwnStringOnly; the harness compares them with the real output (identity keys, a colliding "
+             "custom hash, murmur hashing with 2..65536 columns, base dictionaries, caps 2..100).",
+        note="The murmur hash itself is not specified (its values are observations); strings over {a,b} up to length 5-6 "
+             "plus unicode / longer repetitive strings.",
+        tech="TLA+ parse state machine evaluated by TLC on recorded instances with logged hash tables"),
     "C18": dict(
         cat="model_checking", ref="5 (C18), 4.14",
         text="SparseOps.tla transcribes the two-pointer merges of sparse_sum/diff/mul, arr_union/intersect and dense_union "
